@@ -196,6 +196,10 @@ class TransformationPerformer:
       ]
     consumers = []
     for original_op_id in instruction.consumers:
+      if original_op_id == -1:
+        # -1 stands for the graph output, it is not an operator.
+        consumers.append(-1)
+        continue
       consumers.append(
           self._original_op_id_map[transformation_inst.subgraph_id][
               original_op_id
@@ -218,9 +222,13 @@ class TransformationPerformer:
         transformation_inst.subgraph_id,
         trans_info,
     )
+    first_consumer = min(instruction.consumers)
+    if first_consumer == -1:
+      # Inserted right after the producer: every later operator is shifted.
+      first_consumer = max(instruction.producer, -1) + 1
     self._update_op_id_map(
         transformation_inst.subgraph_id,
-        min(instruction.consumers),
+        first_consumer,
         trans_info.num_ops_added,
     )
 
